@@ -235,7 +235,7 @@ func gen(r *rand.Rand, thorough bool, caseNo int) []string {
 	}
 	nRounds := 35 + r.Intn(45)
 	if thorough {
-		nRounds = 60 + r.Intn(200)
+		nRounds = 60 + r.Intn(140)
 	}
 	probes := 0
 	finalized := "" // number/start of the magic block the chain has as its latest finalized one
@@ -744,7 +744,7 @@ func main() {
 		ID: "C38", Model: "C38", Gen: gen, Impl: impl, Oracle: oracle, Serial: true,
 		Cases: func(th bool) int {
 			if th {
-				return 300
+				return 100
 			}
 			return 10
 		},
